@@ -2,7 +2,7 @@
 
 Theorems: coq/C19/Properties_C19.v (AVL invariant preserved by insert/remove, refinement to a finite
 map, count = cardinal, height bound fib(h+2) <= n+1, pointer-level queue/vector refine list models,
-sort = sorted stable permutation, malloc/free log: every block freed exactly once, nothing live after
+sort = sorted permutation, malloc/free log: every block freed exactly once, nothing live after
 the destructor).
 Tie: generated Cb programs importing the real stdlib/std/{map,vector,queue}.cb run on the interpreter
 built from the current tree; every result, size and tree height is compared with the extracted model
@@ -202,8 +202,6 @@ def gen_cases(seed, tier):
     keys = list(range(1, m + 1))
     seqs = []
     rm_orders = list(itertools.permutations(keys))
-    if not q:
-        rm_orders = rm_orders[::5]
     for ins in itertools.permutations(keys):
         for rm in rm_orders:
             seqs.append((ins, rm))
@@ -219,12 +217,12 @@ def gen_cases(seed, tier):
                 ops.append([ci, "remove", k])
         out.append(("exhaustive-perm%d" % m, {"conts": conts, "ops": ops, "reps": 1}))
     # (2) long single-map histories over small key domains (collisions, rebalancing on remove, emptying)
-    for k in range(120 if q else 900):
+    for k in range(120 if q else 2500):
         rng = rng_for(seed, "c19-map", k)
         c = new_cont(rng, "map", kdom=rng.choice([3, 5, 8, 12, 20, 40, 64]))
         out.append(("map-history", gen_random_case(rng, rng.choice([60, 120, 200]), [c])))
     # (3) monotone / zig-zag insertion then removal (every rotation kind, deep trees)
-    for k in range(12 if q else 90):
+    for k in range(12 if q else 150):
         rng = rng_for(seed, "c19-mono", k)
         n = rng.choice([15, 31, 33, 64] if q else [15, 31, 33, 64, 100])
         order = {0: list(range(n)), 1: list(range(n - 1, -1, -1)),
@@ -239,14 +237,14 @@ def gen_cases(seed, tier):
         ops = ops[:199] + [[0, "clear"]]
         out.append(("map-monotone", {"conts": [c], "ops": ops, "reps": 1}))
     # (4) single vector / queue histories
-    for k in range(90 if q else 700):
+    for k in range(90 if q else 2000):
         rng = rng_for(seed, "c19-vec", k)
         out.append(("vector-history", gen_random_case(rng, rng.choice([40, 90, 160]), [new_cont(rng, "vec")])))
-    for k in range(50 if q else 400):
+    for k in range(50 if q else 1000):
         rng = rng_for(seed, "c19-que", k)
         out.append(("queue-history", gen_random_case(rng, rng.choice([40, 90, 200]), [new_cont(rng, "que")])))
     # (5) several containers and element types interleaved
-    for k in range(140 if q else 1200):
+    for k in range(140 if q else 3500):
         rng = rng_for(seed, "c19-mix", k)
         conts = [new_cont(rng, rng.choice(["map", "map", "vec", "que"])) for _ in range(rng.randint(2, 6))]
         if rng.random() < 0.5:       # two objects of the very same type
@@ -784,7 +782,7 @@ def run(rep):
                 "the container is non-empty, or a tree reaches height >= 2",
         "exhaustive": True,
         "exhaustive_space": "every insertion order of %d distinct keys into Map<int,int> followed by %s removal order"
-                            % ((4, "every") if tier == "quick" else (5, "every 5th")),
+                            % ((4, "every") if tier == "quick" else (5, "every")),
         "input_distribution": hist, "operation_histogram": ophist,
         "malloc_free_events_compared": events, "twin_allocations_dropped(known finding)": twins,
         "samples": [{"case": cases[len(cases) // 3], "program_head": render(cases[len(cases) // 3])[:600]},
@@ -818,7 +816,7 @@ def run(rep):
         asan_dir = common.build_impl("asan")
         sel = [i for i, (o, c) in enumerate(stream)
                if all(not (x["kind"] == "que" and x["e"] != "long") for x in c["conts"])]
-        sel = sel[::max(1, len(sel) // 400)]
+        sel = sel[::max(1, len(sel) // 1200)]
 
         def one_asan(i):
             src = render(cases[i])
